@@ -49,9 +49,9 @@ func (p Plan) mcFiles() (string, map[string][]byte, string) {
 	mod := "MCgen_dkg_" + strings.ReplaceAll(p.Name, "-", "_")
 	body := fmt.Sprintf("---- MODULE %s ----\nEXTENDS DKGMC\ncByz == %s\n====\n", mod, setText(p.Cfg.Byz))
 	inv := "INVARIANT C07_Spec\nINVARIANT Agreement\nINVARIANT EmitFinal\n"
-	cfg := fmt.Sprintf("CONSTANTS\n N = %d\n T = %d\n Byz <- cByz\n PhaseLen = %d\n MaxRej = %d\n Emit = TRUE\n AccuseAny = %s\n Windows = %s\n Partial = %s\n MaxReload = %d\n MaxLag = %d\n"+
+	cfg := fmt.Sprintf("CONSTANTS\n N = %d\n T = %d\n Byz <- cByz\n PhaseLen = %d\n MaxRej = %d\n Emit = TRUE\n AccuseAny = %s\n Windows = %s\n Partial = %s\n MaxReload = %d\n MaxLag = %d\n Overlap = %s\n"+
 		"SPECIFICATION Spec\n%sVIEW View\nCHECK_DEADLOCK FALSE\n",
-		p.Cfg.N, p.Cfg.T, p.Cfg.PhaseLen, p.MaxRej, boolText(p.AccuseAny), boolText(p.Windows), boolText(p.Partial), p.MaxReload, p.MaxLag, inv)
+		p.Cfg.N, p.Cfg.T, p.Cfg.PhaseLen, p.MaxRej, boolText(p.AccuseAny), boolText(p.Windows), boolText(p.Partial), p.MaxReload, p.MaxLag, boolText(p.Cfg.Overlap), inv)
 	return mod, map[string][]byte{mod + ".tla": []byte(body)}, cfg
 }
 
@@ -220,6 +220,9 @@ func Execute(cfg Cfg, alphabet []Op, hist []int, seed int64, run int) *RunResult
 	rr.Panics = w.Panics
 	rr.Calls = w.Calls
 	rr.Sig = outcomeSig(fin)
+	if os.Getenv("VERIF_DKG_DEBUG") != "" {
+		fmt.Fprintf(os.Stderr, "DEBUG run %d %v -> %s\n", run, opsOf(alphabet, hist), rr.Sig)
+	}
 	return rr
 }
 
@@ -455,19 +458,19 @@ func valsText(v []string) string {
 func plansC07(thorough bool) []Plan {
 	if !thorough {
 		return []Plan{
-			{Name: "n3-honest", Cfg: Cfg{N: 3, T: 2, Byz: []int{}, PhaseLen: 2}, Windows: true, MaxReload: 1, MaxBeh: 40},
+			{Name: "n3-honest", Cfg: Cfg{N: 3, T: 2, Byz: []int{}, PhaseLen: 2, Overlap: true}, Windows: true, MaxReload: 1, MaxBeh: 40},
 			{Name: "n3-byz3", Cfg: Cfg{N: 3, T: 2, Byz: []int{3}, PhaseLen: 2}, Windows: true, MaxBeh: 140},
-			{Name: "n3-sim", Cfg: Cfg{N: 3, T: 2, Byz: []int{2}, PhaseLen: 3}, Partial: true, MaxRej: 2, AccuseAny: true, MaxReload: 2, MaxLag: 3, Simulate: 16},
+			{Name: "n3-sim", Cfg: Cfg{N: 3, T: 2, Byz: []int{2}, PhaseLen: 3, Overlap: true}, Partial: true, MaxRej: 2, AccuseAny: true, MaxReload: 2, MaxLag: 3, Simulate: 16},
 			{Name: "n4-sim", Cfg: Cfg{N: 4, T: 2, Byz: []int{2, 4}, PhaseLen: 2}, Partial: true, MaxRej: 2, AccuseAny: true, MaxReload: 2, MaxLag: 3, Simulate: 20},
 		}
 	}
 	return []Plan{
-		{Name: "n3-honest", Cfg: Cfg{N: 3, T: 2, Byz: []int{}, PhaseLen: 3}, Windows: true, MaxReload: 1, MaxBeh: 600},
+		{Name: "n3-honest", Cfg: Cfg{N: 3, T: 2, Byz: []int{}, PhaseLen: 3, Overlap: true}, Windows: true, MaxReload: 1, MaxBeh: 600},
 		{Name: "n3-byz3-reload", Cfg: Cfg{N: 3, T: 2, Byz: []int{3}, PhaseLen: 2}, Windows: true, MaxReload: 1, MaxBeh: 2000},
 		{Name: "n3-byz3", Cfg: Cfg{N: 3, T: 2, Byz: []int{3}, PhaseLen: 2}, Windows: true, Partial: true, MaxBeh: 3000},
 		{Name: "n3-byz1-rej", Cfg: Cfg{N: 3, T: 2, Byz: []int{1}, PhaseLen: 2}, Windows: true, MaxRej: 1, MaxBeh: 1500},
 		{Name: "n3-t3", Cfg: Cfg{N: 3, T: 3, Byz: []int{}, PhaseLen: 2}, Windows: true, MaxBeh: 200},
-		{Name: "n3-sim", Cfg: Cfg{N: 3, T: 2, Byz: []int{2}, PhaseLen: 3}, Partial: true, MaxRej: 2, AccuseAny: true, MaxReload: 2, MaxLag: 3, Simulate: 400},
+		{Name: "n3-sim", Cfg: Cfg{N: 3, T: 2, Byz: []int{2}, PhaseLen: 3, Overlap: true}, Partial: true, MaxRej: 2, AccuseAny: true, MaxReload: 2, MaxLag: 3, Simulate: 400},
 		{Name: "n4-sim", Cfg: Cfg{N: 4, T: 2, Byz: []int{2, 4}, PhaseLen: 2}, Partial: true, MaxRej: 2, AccuseAny: true, MaxReload: 2, MaxLag: 3, Simulate: 400},
 		{Name: "n4-t3-sim", Cfg: Cfg{N: 4, T: 3, Byz: []int{1}, PhaseLen: 3}, Partial: true, MaxRej: 2, AccuseAny: true, MaxReload: 2, MaxLag: 3, Simulate: 300},
 		{Name: "n5-sim", Cfg: Cfg{N: 5, T: 3, Byz: []int{1, 4}, PhaseLen: 2}, Partial: true, MaxRej: 2, AccuseAny: true, MaxReload: 2, MaxLag: 3, Simulate: 300},
